@@ -2,7 +2,7 @@
 import histcheck
 
 PID = "C04"
-COMMON = ["hist", "-proj", "bank,oracle,reporter", "-boundary", "-gov", "-jumps", "-valstatus", "-maxops", "6", "-mintinit", "-bbias", "2", "-stories", "40"]
+COMMON = ["hist", "-proj", "bank,oracle,reporter", "-boundary", "-gov", "-jumps", "-valstatus", "-maxops", "6", "-mintinit", "-bbias", "2", "-dbias", "1", "-stories", "70"]
 
 def run(tier, seed, replay):
     return histcheck.run(
